@@ -53,7 +53,7 @@ def replay(rec):
             return 2
         runs, subs, subs2 = out
         a = [dict(e, vt=e["vt"] - 200) for e in runs[0]]
-        b = [dict(e, vt=e["vt"] - 1500) for e in runs[1]]
+        b = [dict(e, vt=e["vt"] - rec["spec"].get("second_at", 1500)) for e in runs[1]]
         d = diff_common._first_diff(a, b)
         print("replay:", d or "both subscriptions saw the same")
         return 1 if d else 0
